@@ -17,13 +17,30 @@ def run(ctx):
         if rendcheck.classify(d) == "raster":
             ctx.violation(rendcheck.vkey(d), "rasteriser calls differ from the mapped path: %s" % d.get("what"), d)
     mc = ctx.mc[-1]
+    # "drawn ... over the target rectangle", through the bundled vec.Rasterizer: the single-path programs of GEN_Pixels
+    # rendered at an offset, with the rectangle overhanging the image's corner, and into empty rectangles (pixel level)
+    import json, os
+    gen = os.path.join(ctx.tmp, "gen_pixels1.out")
+    g = ctx.tlc("GEN_Pixels", "GEN_Pixels_1", timeout=1800, out_file=gen)
+    if g["error"] or not g["finished"]:
+        raise vlib.Broken("GEN_Pixels failed (spec-level):\n%s" % vlib.tail(g["out"]))
+    mis = os.path.join(ctx.tmp, "pixels1.mis")
+    pp, _ = ctx.run_harness(["replay-pixels", "-in", gen, "-out", mis], timeout=3000)
+    px = json.loads([l for l in pp.stdout.splitlines() if l.startswith("@@SUMMARY ")][-1][10:])
+    if px["programs"] < 40:
+        raise vlib.Broken("too few generated programs: %d" % px["programs"])
+    for line in open(mis):
+        m = json.loads(line)
+        if m["kind"] in ("overhang", "outside", "translate") or m["kind"].startswith("empty-rect"):
+            ctx.violation("pixels:%s:%s" % (m["kind"], m["key"]), "drawn elsewhere than over the target rectangle: " + m["kind"],
+                          dict(kind=m["kind"], size=m["size"], image=m["image"], ndiff=m["ndiff"]))
     st = r["summary"]["stats"]
     progs = sum(v for k, v in st.items() if k.endswith(".programs"))
     cov = dict(states=mc["distinct"], transitions=mc["generated"], traces_validated_against_impl=progs,
                samples=vlib.sample_lines(r["files"][1], 4, 900)[1:],
                evaluations=r["events"], distinct_nontrivial=progs,
                rule="one trace per program; calls whose geometry left the lattice are counted in nskipgeo and not judged",
-               stats=st, totals=r["totals"])
+               stats=st, totals=r["totals"], pixel_level=px)
     return vlib.finish(ctx, "model_checking", cov, [
         "exact comparison on the lattice only (dyadic scale, |coord| <= 512, multiples of 1/64)",
         "after an elliptical arc the pen is inexact: later relative operations are compared within 2^-8 px until the next absolute move",
